@@ -42,7 +42,7 @@ BOUNDS = {
     "slots": "n <= 4 declared fields, carrier values all ints / None, list length <= 2",
     "addresses": "all 2^32 IPv4 and all 2^128 IPv6 addresses",
     "nested": "carriers in msgpack's native range [-2^63, 2^64) (outside it the varint branch decides), 4 shapes",
-    "sequences": "K = 3 (quick) / 4 (thorough) records per stream over 11 record kinds, every history",
+    "sequences": "K = 3 (quick) / 4 (thorough) records per stream over 21 record kinds (C03's two universes + typed rows), every history",
 }
 STUBS = [
     "tree-level msgpack (vf/models/msgtree.py): native types pass through, everything else goes through default / ext_hook; validated against the real msgpack every run",
@@ -343,25 +343,58 @@ _SEQ = None
 
 
 def seq_universe():
-    """record kinds for O8: C03's universe (incl. the pair whose identifiers coincide - solver witness or static pair) plus typed rows"""
+    """record kinds for O8 as (maker, type name the record was created with or None, write must fail): C03's two universes (the pair
+    whose identifiers coincide, same-name types, holders, grouped records of equal flat layout, look-alike type names, a write that
+    fails while packing) plus typed rows"""
     global _SEQ
     if _SEQ is None:
         from harness import C03
 
         rows = replay_records()
-        _SEQ = list(C03.universe()) + [lambda r=r: r for r in (rows[1], rows[4], rows[5])]
+        _SEQ = [(f, None, False) for f in C03.universe()]
+        _SEQ += [(f, C03.CREATED_AS.get(("aux", i)), ("aux", i) in C03.FAILING) for i, f in enumerate(C03.universe("aux"))]
+        _SEQ += [((lambda r=r: r), None, False) for r in (rows[1], rows[4], rows[5], rows[-10])]
     return _SEQ
 
 
-def stream_problem(records):
-    """in-memory round trip through the real stream writer / reader -> None or the first difference"""
+def _expected(kinds):
+    """-> (records to write in order with their 'must fail' flag, expected deep observations of what must come back)"""
+    U = seq_universe()
+    todo, want = [], []
+    for i in kinds:
+        make, created_as, failing = U[i]
+        rec = make()
+        todo.append((rec, failing))
+        if not failing:
+            d = deep(rec)
+            if created_as is not None:
+                d = (d[0], created_as) + tuple(d[2:])
+            want.append(d)
+    return todo, want
+
+
+def _write_all(w, todo):
+    for rec, failing in todo:
+        if failing:
+            try:
+                w.write(rec)
+            except Exception:  # noqa: BLE001 - the application catches the error and goes on
+                continue
+            return "writing a record with an unserialisable value did not raise"
+        w.write(rec)
+    return None
+
+
+def stream_problem(kinds):
+    """in-memory round trip of a sequence of kinds through the real stream writer / reader -> None or the first difference"""
     from flow.record.stream import RecordStreamReader, RecordStreamWriter
 
-    want = [deep(r) for r in records]
+    todo, want = _expected(kinds)
     buf = io.BytesIO()
     w = RecordStreamWriter(buf)
-    for r in records:
-        w.write(r)
+    p = _write_all(w, todo)
+    if p:
+        return p
     w.flush()
     data = buf.getvalue()
     w.fp = None
@@ -370,6 +403,30 @@ def stream_problem(records):
     except Exception as e:  # noqa: BLE001
         return f"reading back raised {type(e).__name__}: {e}"
     return None if got == want else _first_diff(got, want)
+
+
+def path_problem(kinds):
+    """the same through RecordWriter(path) / RecordReader(path), plain and gzip"""
+    from flow.record import RecordReader, RecordWriter
+
+    todo, want = _expected(kinds)
+    with tempdir() as d:
+        for ext in ("records", "records.gz"):
+            wr = RecordWriter(f"{d}/x.{ext}")
+            p = _write_all(wr, todo)
+            wr.flush()
+            wr.close()
+            if p:
+                return p
+            try:
+                rd = RecordReader(f"{d}/x.{ext}")
+                got = [deep(r) for r in rd]
+                rd.close()
+            except Exception as e:  # noqa: BLE001
+                return f"{ext}: reading back raised {type(e).__name__}: {e}"
+            if got != want:
+                return f"{ext}: " + _first_diff(got, want)
+    return None
 
 
 def sequences(k: int, first: int):
@@ -390,8 +447,7 @@ def sequences(k: int, first: int):
                 if c == j:
                     kinds.append(j)
         with NoTracing():
-            U = seq_universe()
-            return stream_problem([U[i]() for i in kinds]) is None
+            return stream_problem(kinds) is None
 
     return check
 
@@ -559,6 +615,13 @@ def replay_records():
         rows.append(T(-1, " ", True, 1.0, b"\x00", ["", "a"], 1, [0, 0]))
     rows.append(GroupedRecord("grp", [K(3, "k"), N(None, [], 2**65)]))
     rows.append(N(None, None, None))
+    # timestamp instant AND UTC offset: offsets with seconds / microseconds, the extreme offsets, instants before 1970 and in year 1 / 9999
+    TZ = RecordDescriptor("test/tz", [("datetime", "a"), ("datetime[]", "l")])
+    td = _dt.timedelta
+    offs = [td(minutes=19, seconds=32), -td(minutes=19, seconds=32), td(hours=23, minutes=59, seconds=59), -td(hours=23, minutes=59, seconds=59), td(seconds=1), td(microseconds=1), -td(hours=2, minutes=30), td(0)]
+    stamps = [_dt.datetime(1883, 11, 18, 12, 0, 0, 1, tzinfo=_dt.timezone(o)) for o in offs] + [_dt.datetime(1, 1, 2, tzinfo=_dt.timezone(offs[0])), _dt.datetime(9999, 12, 30, 23, 59, 59, 999999, tzinfo=_dt.timezone(offs[1]))]
+    for st in stamps:
+        rows.append(TZ(st, [st, stamps[0]]))
     return rows
 
 
@@ -596,9 +659,9 @@ def replay(res):
         v = cex_args(res, ["c1", "c2", "c3"])
         U = seq_universe()
         kinds = [res["args"]["first"]] + [c for c in [v.get("c1"), v.get("c2"), v.get("c3")][: res["args"]["k"] - 1] if isinstance(c, int) and 0 <= c < len(U)]
-        probs = real_roundtrip([U[i]() for i in kinds])
-        if probs:
-            return {"reproduced": True, "key": f"C01/sequence/{kinds}", "what": f"sequence of record kinds {kinds} through {probs[0][0]}: {probs[0][1]}"[:700], "input": {"kinds": kinds}}
+        prob = path_problem(kinds) or stream_problem(kinds)
+        if prob:
+            return {"reproduced": True, "key": f"C01/sequence/{kinds}", "what": f"sequence of record kinds {kinds}: {prob}"[:700], "input": {"kinds": kinds}}
         return {"reproduced": False, "what": f"sequence {kinds} reads back exactly through the path-based writer/reader"}
     if recs is not None:
         probs = real_roundtrip(recs)
